@@ -34,4 +34,10 @@ theorem run_holds_slot :
 theorem main_no_gate : "gate.enter" ∉ Extracted.Runner.mainOrder ∧ "gate.exit" ∉ Extracted.Runner.mainOrder ∧
     "defer(gate.enter)" ∉ Extracted.Runner.mainOrder ∧ "defer(gate.exit)" ∉ Extracted.Runner.mainOrder := by decide
 
+/-- C09: `Project.Run` starts the build through `runner.Run(proj, label)` — no parallelism argument, for real and dry
+    runs alike — and `Run` is the package's only entry point, so the limit is always `newGate(runtime.NumCPU())` -/
+theorem project_run_call_ok : Extracted.Runner.skel_Project_Run = Expected.Runner.skel_Project_Run := rfl
+
+theorem single_entry_point : Extracted.Runner.runnerEntryPoints = ["Run"] := by decide
+
 end Dawn.Ties.Runner
